@@ -15,6 +15,7 @@ import GoSandbox.Model.DriverC19
 import GoSandbox.Model.DriverC20
 import GoSandbox.Model.DriverC02
 import GoSandbox.Model.DriverC03
+import GoSandbox.Model.DriverC05
 
 open GoSandbox
 
@@ -35,6 +36,7 @@ def dispatch (ws : List String) : Option String :=
     else if cmd.startsWith "c20." then Driver.C20.handle ws
     else if cmd.startsWith "c02." then Driver.C02.handle ws
     else if cmd.startsWith "c03." then Driver.C03.handle ws
+    else if cmd.startsWith "c05." then Driver.C05.handle ws
     else if cmd.startsWith "c07." then Driver.C07.handle ws
     else none
 
